@@ -19,7 +19,7 @@ MANIFEST = dict(
          "the caller may be cancelled during a pause. Random scripts for limits up to 9 are validated by a generated "
          "trace module; the counting core RetryCore.tla is proved for EVERY limit by Apalache (inductive invariant "
          "=> CallsBound) and Retry.tla is checked by TLC to refine it; the decorator stacked with the others is "
-         "checked on Stack.tla.",
+         "checked on Stack.tla. What happens between the last attempt and the outcome is observed too (no pause, no timer, no time); half of the async callers swallowed a cancellation earlier.",
     technique="TLA+ spec + TLC exhaustive model checking; edge-complete graph replay into the implementation",
     design="5/C14")
 INVS = ["TypeOK", "CallsBound", "ExactAttempts", "NoEarlyStop", "TrueLastOutcome", "CancelEndsCall", "NeverRetryBase", "PausesRight"]
